@@ -429,3 +429,146 @@ def captured_mutations(ctx, modnames):
                         out.append({"function": f"{mn}:{qidx.get(inner, inner.name)}", "outer": f"{mn}:{q}", "name": name, "how": how,
                                     "stmt": ast.unparse(n)[:100], "file": src.rel, "line": n.lineno, "created_line": created[name]})
     return out
+
+
+SLOT_TABLES = {"UUID": {"int", "is_safe"}, "uuid.UUID": {"int", "is_safe"}}
+
+
+def bypassed_constructors(ctx, modnames):
+    """`X.__new__(X)` / `object.__new__(X)`: an instance created without running __init__.  Every slot of X must be stored
+    (object.__setattr__ / plain assignment) in the same function before the instance is used elsewhere.
+    Returns rows {function, cls, missing | None (unknown class), stmt, file, line}."""
+    out = []
+    for mn in modnames:
+        src = ctx.sm.get(mn)
+        if src is None:
+            continue
+        qidx = qualname_index(src.tree)
+        for fn, q in qidx.items():
+            if not isinstance(fn, ast.FunctionDef):
+                continue
+            for n in ast.walk(fn):
+                if not (isinstance(n, (ast.Assign, ast.AnnAssign)) and isinstance(getattr(n, "value", None), ast.Call)):
+                    continue
+                c = n.value
+                if not (isinstance(c.func, ast.Attribute) and c.func.attr == "__new__" and c.args):
+                    continue
+                cls = ast.unparse(c.args[0])
+                tg = n.targets[0] if isinstance(n, ast.Assign) else n.target
+                if not isinstance(tg, ast.Name):
+                    continue
+                var = tg.id
+                stored = set()
+                for m in ast.walk(fn):
+                    if isinstance(m, ast.Call) and ast.unparse(m.func) in ("object.__setattr__", "setattr") and len(m.args) == 3 and \
+                            isinstance(m.args[0], ast.Name) and m.args[0].id == var and isinstance(m.args[1], ast.Constant):
+                        stored.add(m.args[1].value)
+                    elif isinstance(m, (ast.Assign, ast.AnnAssign)):
+                        for t in (m.targets if isinstance(m, ast.Assign) else [m.target]):
+                            if isinstance(t, ast.Attribute) and isinstance(t.value, ast.Name) and t.value.id == var:
+                                stored.add(t.attr)
+                slots = SLOT_TABLES.get(cls)
+                out.append({"function": f"{mn}:{q}", "cls": cls, "missing": None if slots is None else sorted(slots - stored),
+                            "stored": sorted(stored), "stmt": ast.unparse(n)[:100], "file": src.rel, "line": n.lineno})
+    return out
+
+
+def zero_size_eof_tests(ctx, modnames):
+    """`x = s.read(size)` whose result is tested for emptiness (`if not x`, `x == b""`, `len(x) == 0`) on a branch that raises,
+    where nothing shows size > 0: read(0) returns b"" on a perfectly good stream, so complete input is reported as truncated."""
+    out = []
+
+    def positive(expr, guards):
+        if isinstance(expr, ast.Constant) and isinstance(expr.value, int):
+            return expr.value > 0
+        if isinstance(expr, ast.Name):
+            return expr.id in guards["pos_names"]
+        if isinstance(expr, ast.Call) and isinstance(expr.func, ast.Name) and expr.func.id == "min" and expr.args:
+            return all(positive(a, guards) for a in expr.args)
+        if isinstance(expr, ast.BinOp) and isinstance(expr.op, ast.Sub):
+            return (ast.unparse(expr.right), ast.unparse(expr.left)) in guards["less"]
+        return False
+
+    def guards_of(test, g):
+        # facts that hold inside `while test:` / `if test:`
+        if isinstance(test, ast.Name):
+            g["pos_names"].add(test.id)  # truthy int: != 0; with a decreasing counter this is the idiom `while remaining:`
+        elif isinstance(test, ast.Compare) and len(test.ops) == 1:
+            l, op, r = test.left, test.ops[0], test.comparators[0]
+            if isinstance(op, ast.Gt) and isinstance(l, ast.Name) and isinstance(r, ast.Constant) and r.value == 0:
+                g["pos_names"].add(l.id)
+            elif isinstance(op, ast.Lt) and isinstance(r, ast.Name) and isinstance(l, ast.Constant) and l.value == 0:
+                g["pos_names"].add(r.id)
+            elif isinstance(op, ast.NotEq) and isinstance(l, ast.Name) and isinstance(r, ast.Constant) and r.value == 0:
+                g["pos_names"].add(l.id)
+            elif isinstance(op, ast.Lt):
+                g["less"].add((ast.unparse(l), ast.unparse(r)))
+            elif isinstance(op, ast.Gt):
+                g["less"].add((ast.unparse(r), ast.unparse(l)))
+        elif isinstance(test, ast.BoolOp) and isinstance(test.op, ast.And):
+            for v in test.values:
+                guards_of(v, g)
+
+    def visit(stmts, g, fnq, src):
+        for i, st in enumerate(stmts):
+            if isinstance(st, (ast.While, ast.If)):
+                g2 = {"pos_names": set(g["pos_names"]), "less": set(g["less"])}
+                guards_of(st.test, g2)
+                visit(st.body, g2, fnq, src)
+                visit(st.orelse, g, fnq, src)
+                continue
+            if isinstance(st, (ast.For, ast.With, ast.Try)):
+                for blk in ("body", "orelse", "finalbody"):
+                    visit(getattr(st, blk, []) or [], g, fnq, src)
+                for h in getattr(st, "handlers", []) or []:
+                    visit(h.body, g, fnq, src)
+                continue
+            if isinstance(st, (ast.Assign, ast.AnnAssign)) and isinstance(getattr(st, "value", None), ast.Call):
+                c = st.value
+                tg = st.targets[0] if isinstance(st, ast.Assign) else st.target
+                if isinstance(c.func, ast.Attribute) and c.func.attr in ("read", "recv", "read1") and len(c.args) == 1 and isinstance(tg, ast.Name):
+                    # is the result tested for emptiness on a raising branch later in this block?
+                    for later in stmts[i + 1:]:
+                        if isinstance(later, ast.If) and any(isinstance(x, ast.Raise) for b in later.body for x in ast.walk(b)):
+                            t = later.test
+                            empt = (isinstance(t, ast.UnaryOp) and isinstance(t.op, ast.Not) and isinstance(t.operand, ast.Name) and t.operand.id == tg.id) or \
+                                   (isinstance(t, ast.Compare) and len(t.ops) == 1 and isinstance(t.ops[0], ast.Eq) and
+                                    ast.unparse(t.left) in (tg.id, f"len({tg.id})") and ast.unparse(t.comparators[0]) in ("b''", "0", 'b""'))
+                            if empt and not positive(c.args[0], g):
+                                out.append({"function": fnq, "stmt": f"{ast.unparse(st)[:80]}; if {ast.unparse(t)}: raise", "file": src.rel,
+                                            "line": st.lineno, "size": ast.unparse(c.args[0])})
+                            break
+
+    for mn in modnames:
+        src = ctx.sm.get(mn)
+        if src is None:
+            continue
+        for fn, q in qualname_index(src.tree).items():
+            if isinstance(fn, ast.FunctionDef):
+                visit(fn.body, {"pos_names": set(), "less": set()}, f"{mn}:{q}", src)
+    return out
+
+
+def result_is_tested(ctx, site_row) -> bool:
+    """Does the function containing the read test the value it read (len(x) compared, truthiness of x, x == b'')?"""
+    mn, q = site_row["function"].split(":")
+    src = ctx.sm.get(mn)
+    for fn, qq in qualname_index(src.tree).items():
+        if qq != q or not isinstance(fn, ast.FunctionDef):
+            continue
+        names = set()
+        for n in ast.walk(fn):
+            if isinstance(n, (ast.Assign, ast.AnnAssign)) and isinstance(getattr(n, "value", None), ast.Call) and \
+                    any(isinstance(c, ast.Call) and isinstance(c.func, ast.Attribute) and c.func.attr in READ_METHODS and c.lineno == site_row["line"]
+                        for c in ast.walk(n.value)):
+                for t in (n.targets if isinstance(n, ast.Assign) else [n.target]):
+                    if isinstance(t, ast.Name):
+                        names.add(t.id)
+        if not names:
+            return False
+        for n in ast.walk(fn):
+            if isinstance(n, (ast.If, ast.While)):
+                used = {x.id for x in ast.walk(n.test) if isinstance(x, ast.Name)}
+                if used & names:
+                    return True
+    return False
